@@ -5,7 +5,8 @@ worktree /tmp/rw/main (never /repo), run the property's check there, and record 
 import json, os, re, subprocess, sys
 V = "/verif"
 ids = sys.argv[1:] or sorted(os.listdir(os.path.join(V, "seeded")))
-subprocess.run([V + "/tools/scratch.sh", "main", "new"], check=True, capture_output=True)
+SC = os.environ.get("VERIF_SCRATCH", "main")
+subprocess.run([V + "/tools/scratch.sh", SC, "new"], check=True, capture_output=True)
 rows = []
 for d in ids:
     p = os.path.join(V, "seeded", d)
@@ -17,7 +18,7 @@ for d in ids:
     if not os.path.exists(os.path.join(V, "vrules", "props", pid.lower() + ".py")):
         rows.append((d, pid, "no check yet", []))
         continue
-    r = subprocess.run([V + "/tools/scratch.sh", "main", "try", os.path.join(p, "patch.diff"), pid], capture_output=True, text=True)
+    r = subprocess.run([V + "/tools/scratch.sh", SC, "try", os.path.join(p, "patch.diff"), pid], capture_output=True, text=True)
     out = r.stdout
     hits = re.findall(r"rule=(\S+) instance=(.*?) at ", out)
     det = sorted({"%s/%s" % h for h in hits})
@@ -27,7 +28,7 @@ for d in ids:
     json.dump(meta, open(mp, "w"), indent=1)
     rows.append((d, pid, status, det))
     print(d, pid, status, len(det), flush=True)
-with open(os.path.join(V, "seeded", "MATRIX.md"), "w") as f:
+with open(os.path.join(V, "seeded", "MATRIX.md" if not sys.argv[1:] else "MATRIX-part-%s.md" % SC), "w") as f:
     f.write("| seeded change | property | status | reporting rules |\n|---|---|---|---|\n")
     for d, pid, st, det in rows:
         f.write("| %s | %s | %s | %s |\n" % (d, pid, st, "; ".join(det)[:400]))
